@@ -56,7 +56,12 @@ CONTAINERS = {
     "string_by_ref": ("&String", "s", lambda vs: "[%s]" % ", ".join("String::from(%s)" % rust_str(v) for v in vs)),
     "arr_char": ("char", "s", lambda vs: "[%s]" % ", ".join("'%s'" % v for v in vs)),
     "arr_u8": ("u8", "i", lambda vs: "[%s]" % _ints(vs, "u8")),
+    # &str items that are prefixes of one text: they share their start address
+    "prefix_str": ("&str", "s", lambda vs: "{ const T: &str = %s; [%s] }" % (rust_str(max(vs, key=len)), ", ".join("&T[..%d]" % len(v.encode("utf-8")) for v in vs))),
+    # items whose rendering is the empty string: several rows under the same (empty) label
+    "blank": ("support::Blank", "e", lambda vs: "[%s]" % ", ".join("support::Blank(%d)" % v for v in vs)),
 }
+PREFIX_TEXT = "abc::def"
 
 
 def opts_letter(o):
@@ -290,6 +295,9 @@ pub mod support {
     pub trait Render { fn render(&self) -> String; }
     impl Render for i64 { fn render(&self) -> String { format!("i{self}") } }
     impl Render for u8 { fn render(&self) -> String { format!("i{self}") } }
+    #[derive(Clone, Copy, PartialEq)] pub struct Blank(pub i64);
+    impl std::fmt::Display for Blank { fn fmt(&self, _: &mut std::fmt::Formatter<'_>) -> std::fmt::Result { Ok(()) } }
+    impl Render for Blank { fn render(&self) -> String { format!("e{}", self.0) } }
     impl Render for char { fn render(&self) -> String { let mut b = [0u8; 4]; format!("s{}", enc(self.encode_utf8(&mut b))) } }
     impl Render for &str { fn render(&self) -> String { format!("s{}", enc(self)) } }
     impl Render for &String { fn render(&self) -> String { format!("s{}", enc(self)) } }
@@ -448,6 +456,10 @@ def rand_args(rng, max_len=5, kinds=None):
         vals = [s + i for i in range(n)]
     elif kind == "arr_u8":
         vals = [rng.choice([0, 1, 9, 10, 255, rng.randrange(256)]) for _ in range(n)]
+    elif kind == "prefix_str":
+        vals = [PREFIX_TEXT[:rng.randrange(0, len(PREFIX_TEXT) + 1)] for _ in range(n)]
+    elif kind == "blank":
+        vals = [rng.randrange(-5, 50) for _ in range(n)]
     elif vk == "i":
         vals = [rng.choice([0, 1, -1, 2, 10, 9, 100, -100, 2**63 - 1, -(2**63) + 1, 42]) for _ in range(n)]
     elif kind == "arr_char":
